@@ -247,7 +247,7 @@ theorem swapLaws_interpH (N : ℕ) (α : ℕ → ℝ) : SwapLaws N (interpH N α
     · rw [interpH_bad α hc, interpH_bad α (g := g.relabel (swapAt i j)) (by rw [hl]; exact hc), mul_one,
         place2_swap_sq hi hj hij]
   exch_symm := by
-    intro nm x y a hnm hx hy hxy
+    intro nm x y a k hnm hx hy hxy
     rw [interpH_swp α nm hnm, interpH_swp α nm hnm, place2_ok hxy hx hy, place2_ok hxy.symm hy hx]
     exact embed_exchange_symm _ (cmp2_exch α nm a hnm) _ _ _
 
@@ -273,11 +273,11 @@ theorem swapLaws_interpC (N : ℕ) (α : ℕ → ℝ) (oth : Gate → Matrix (St
     · simp only [interpC, if_pos hsw, if_neg hh, if_neg (fun h => hh (hrel.mp h)), interpH_swapG]
       exact hoth i j hi hj hij g hh hg
   exch_symm := by
-    intro nm x y a hnm hx hy hxy
-    have h1 : Handled ⟨nm, [], [x, y], a, 0⟩ := Or.inr hnm
-    have h2 : Handled ⟨nm, [], [y, x], a, 0⟩ := Or.inr hnm
+    intro nm x y a k hnm hx hy hxy
+    have h1 : Handled ⟨nm, [], [x, y], a, k⟩ := Or.inr hnm
+    have h2 : Handled ⟨nm, [], [y, x], a, k⟩ := Or.inr hnm
     simp only [interpC, if_pos h1, if_pos h2]
-    exact (swapLaws_interpH N α).exch_symm nm x y a hnm hx hy hxy
+    exact (swapLaws_interpH N α).exch_symm nm x y a k hnm hx hy hxy
 
 /-! ## the routed circuit has the same product of complex matrices -/
 
@@ -290,36 +290,65 @@ theorem den_congr {M : Type} [Monoid M] (f f' : Gate → M) (l : List Gate) (h :
     rw [ih (fun g hg => h g (List.mem_cons_of_mem _ hg)), h g (List.mem_cons_self ..)]
 
 /-- **One handled gate, over ℂ**: the product of the matrices of the routed gates is the matrix of
-the gate — for every register size, both topologies, every valuation `α` and every family `oth`. -/
-theorem routeGate_den_C (α : ℕ → ℝ) (oth : Gate → Matrix (St N) (St N) ℂ) (setup : Setup)
-    (hs : setup = .linear ∨ setup = .circular) (g : Gate) (hw : WellFormed N g) (hh : Handled g)
-    (hp : Plain g) (out : List Gate) (ho : routeGate N setup g = .ok out) :
-    den (interpC N α oth) out = interpC N α oth g := by
-  have hall := routeGate_out_handled N setup hs g hw hh out ho
-  rw [den_congr (interpC N α oth) (interpH N α) out (fun h hm => by simp only [interpC, if_pos (hall h hm)]),
-    routeGate_den (swapLaws_interpH N α) setup hs g hw hh hp out ho]
-  simp only [interpC, if_pos hh]
+the gate — for every register size, every `setup`, every valuation `α`, every family `oth` and every
+valuation `fire` of the classical conditions (`condInterp`; `fire = fun _ => true` is the plain
+interpretation).  `cc = false` (conditions dropped by the router) needs a gate without condition. -/
+theorem routeGateV_den_C (α : ℕ → ℝ) (oth : Gate → Matrix (St N) (St N) ℂ) (fire : ℕ → Bool) (cc : Bool)
+    (setup : Setup) (g : Gate) (hw : WellFormed N g) (hh : Handled g)
+    (hp : PlainArg g) (hx : cc = false → g.extra = 0) (out : List Gate)
+    (ho : routeGateV (.rep cc) N setup g = .ok out) :
+    den (condInterp fire (interpC N α oth)) out = condInterp fire (interpC N α oth) g := by
+  have hall := routeGateV_out_handled cc N setup g hw hh out ho
+  have hcong : ∀ h, Handled h → condInterp fire (interpC N α oth) h = condInterp fire (interpH N α) h := by
+    intro h hh'
+    simp only [condInterp, interpC, if_pos hh']
+  rw [den_congr _ (condInterp fire (interpH N α)) out (fun h hm => hcong h (hall h hm)),
+    routeGateV_den ((swapLaws_interpH N α).cond fire) cc setup g hw hh hp hx out ho]
+  exact (hcong g hh).symm
 
-/-- **A whole circuit, over ℂ.** -/
-theorem toChain_den_C (α : ℕ → ℝ) (oth : Gate → Matrix (St N) (St N) ℂ) (setup : Setup)
-    (hs : setup = .linear ∨ setup = .circular) (gs : List Gate) (hw : ∀ g ∈ gs, WellFormed N g)
-    (hp : ∀ g ∈ gs, Handled g → Plain g) (out : List Gate) (ho : toChain N setup gs = .ok out) :
-    den (interpC N α oth) out = den (interpC N α oth) gs := by
+/-- **A whole circuit, over ℂ**, under every valuation of the classical conditions. -/
+theorem toChainV_den_C (α : ℕ → ℝ) (oth : Gate → Matrix (St N) (St N) ℂ) (fire : ℕ → Bool) (cc : Bool)
+    (setup : Setup) (gs : List Gate) (hw : ∀ g ∈ gs, WellFormed N g)
+    (hp : ∀ g ∈ gs, Handled g → PlainArg g) (hx : cc = false → ∀ g ∈ gs, Handled g → g.extra = 0)
+    (out : List Gate) (ho : toChainV (.rep cc) N setup gs = .ok out) :
+    den (condInterp fire (interpC N α oth)) out = den (condInterp fire (interpC N α oth)) gs := by
   induction gs generalizing out with
   | nil =>
-    have : out = [] := by simpa [toChain, toChainV] using ho.symm
+    have : out = [] := toChainV_nil ho
     rw [this]
   | cons g gs ih =>
-    obtain ⟨a, b, ha, hb, rfl⟩ := (toChain_cons ..).mp ho
+    obtain ⟨a, b, ha, hb, rfl⟩ := (toChainV_cons ..).mp ho
     have hb' := ih (fun g hg => hw g (List.mem_cons_of_mem _ hg))
-      (fun g hg => hp g (List.mem_cons_of_mem _ hg)) b hb
+      (fun g hg => hp g (List.mem_cons_of_mem _ hg))
+      (fun h g hg => hx h g (List.mem_cons_of_mem _ hg)) b hb
     rw [den_append, hb', den]
     congr 1
     by_cases hh : Handled g
-    · exact routeGate_den_C α oth setup hs g (hw g (List.mem_cons_self ..)) hh
-        (hp g (List.mem_cons_self ..) hh) a ha
-    · rw [routeGate_other hh] at ha; cases ha
+    · exact routeGateV_den_C α oth fire cc setup g (hw g (List.mem_cons_self ..)) hh
+        (hp g (List.mem_cons_self ..) hh) (fun h => hx h g (List.mem_cons_self ..) hh) a ha
+    · rw [routeGateV_other hh] at ha; cases ha
       simp [den]
+
+theorem condInterp_true {M : Type} [Monoid M] (interp : Gate → M) :
+    condInterp (fun _ => true) interp = interp := by
+  funext g; simp [condInterp]
+
+/-- the instances for `routeGate` / `toChain` (`Variant.fixed`), the two documented setups and the
+plain interpretation -/
+theorem routeGate_den_C (α : ℕ → ℝ) (oth : Gate → Matrix (St N) (St N) ℂ) (setup : Setup)
+    (_hs : setup = .linear ∨ setup = .circular) (g : Gate) (hw : WellFormed N g) (hh : Handled g)
+    (hp : Plain g) (out : List Gate) (ho : routeGate N setup g = .ok out) :
+    den (interpC N α oth) out = interpC N α oth g := by
+  have := routeGateV_den_C α oth (fun _ => true) false setup g hw hh hp.2 (fun _ => hp.1) out ho
+  rwa [condInterp_true] at this
+
+theorem toChain_den_C (α : ℕ → ℝ) (oth : Gate → Matrix (St N) (St N) ℂ) (setup : Setup)
+    (_hs : setup = .linear ∨ setup = .circular) (gs : List Gate) (hw : ∀ g ∈ gs, WellFormed N g)
+    (hp : ∀ g ∈ gs, Handled g → Plain g) (out : List Gate) (ho : toChain N setup gs = .ok out) :
+    den (interpC N α oth) out = den (interpC N α oth) gs := by
+  have := toChainV_den_C α oth (fun _ => true) false setup gs hw (fun g hg hh => (hp g hg hh).2)
+    (fun _ g hg hh => (hp g hg hh).1) out ho
+  rwa [condInterp_true] at this
 
 end Route
 end QipVerif
